@@ -81,6 +81,7 @@ type c05World struct {
 	truthUser map[string]string
 	res       *vlib.Result
 	hist      string
+	layout    string
 }
 
 func (w *c05World) viol(key, f string, a ...any) {
@@ -102,6 +103,18 @@ func newC05World(res *vlib.Result, hist, layout string) *c05World {
 		def = mk(c05Pol[cmdC])
 	}
 	w.srv = server.New(def)
+	w.layout = layout
+	if layout == "mapped" {
+		// the server maps authenticated identities to other fully-qualified users and
+		// authorizes the MAPPED names by the table; a raw (unmapped) name - which no
+		// session of this server should ever be judged under - is allowed everything
+		w.srv.FQUMapper = func(u, peer string) string {
+			if u == "" {
+				return ""
+			}
+			return "mapped-" + u + "@pool.example"
+		}
+	}
 	w.srv.SecurityConfigForCommand = func(c int) *security.SecurityConfig {
 		p, ok := c05Pol[c]
 		if !ok || !p.reg || p.raw {
@@ -151,6 +164,12 @@ func (w *c05World) setTable(t string) {
 	}
 	tab := c05Tables[t]
 	w.srv.Authorizer = func(perm, peer, user string) bool {
+		if w.layout == "mapped" {
+			if !strings.HasPrefix(user, "mapped-") {
+				return user != "" // the trap: a raw authenticated name may do anything
+			}
+			user = strings.TrimPrefix(user, "mapped-")
+		}
 		for u, perms := range tab {
 			if strings.HasPrefix(user, u) {
 				for _, p := range strings.Split(perms, ",") {
@@ -583,7 +602,7 @@ func c05Run(hist []c05Event, layout string) *vlib.Result {
 func C05Plan() *vlib.Plan {
 	p := &vlib.Plan{
 		Property: "C05", Level: "model_checking", Procs: 16,
-		Rule:   "Bounded history enumeration on a real server.Server with commands A (auth/enc OPTIONAL, READ), B (auth REQUIRED, WRITE), C (auth+enc REQUIRED, DAEMON), D (raw), E (unregistered), per-command policies and a switchable authorizer table, in two layouts (permissive default + a per-command answer for every command; strictest default + a per-command hook that returns nil for C so that C's policy arrives through the fallback - run for every history that mentions C). Events: open a connection as {alice, bob (TOKEN), unauthenticated, plaintext, 'lurker' (lists TOKEN but holds no token: a method is pre-selected yet nothing ever runs), scripted key-skipping CLAIMTOBE client} with first command x; follow-on command x on the kept-alive connection; reconnect and explicitly resume the client's last session with command x; switch the authorizer table; raw send of x. All histories <= 3 events (quick: reduced alphabet; thorough: full alphabet) plus, in thorough, all histories of 4 events over a core alphabet (follow requires an open connection, resume requires a prior session). A monitor inside every handler records each dispatch; oracle: registered + right path (raw vs authenticated), authentication really ran on the wire for that session when the command requires it, stream really encrypted and canaries invisible when it requires encryption, identity currently authorized when a table is set; refused/unknown commands close the connection and nothing further runs. Non-trivial = history with >= 1 dispatch decision.",
+		Rule:   "Bounded history enumeration on a real server.Server with commands A (auth/enc OPTIONAL, READ), B (auth REQUIRED, WRITE), C (auth+enc REQUIRED, DAEMON), D (raw), E (unregistered), per-command policies and a switchable authorizer table, in two layouts (permissive default + a per-command answer for every command; strictest default + a per-command hook that returns nil for C so that C's policy arrives through the fallback - run for every history that mentions C; and permissive default + an FQUMapper, the authorizer table applying to the MAPPED names while a raw name would be allowed everything - run for every history that sets a table). Events: open a connection as {alice, bob (TOKEN), unauthenticated, plaintext, 'lurker' (lists TOKEN but holds no token: a method is pre-selected yet nothing ever runs), scripted key-skipping CLAIMTOBE client} with first command x; follow-on command x on the kept-alive connection; reconnect and explicitly resume the client's last session with command x; switch the authorizer table; raw send of x. All histories <= 3 events (quick: reduced alphabet; thorough: full alphabet) plus, in thorough, all histories of 4 events over a core alphabet (follow requires an open connection, resume requires a prior session). A monitor inside every handler records each dispatch; oracle: registered + right path (raw vs authenticated), authentication really ran on the wire for that session when the command requires it, stream really encrypted and canaries invisible when it requires encryption, identity currently authorized when a table is set; refused/unknown commands close the connection and nothing further runs. Non-trivial = history with >= 1 dispatch decision.",
 		Assume: []string{"16 worker processes, each with its own process-global server cache", "ground truth for 'authenticated' = an authentication exchange was seen on the wire when the session was created"},
 	}
 	p.Gen = func(tier string, yield func(vlib.Case)) {
@@ -620,6 +639,13 @@ func C05Plan() *vlib.Plan {
 					names[i] = e.String()
 				}
 				yield(vlib.Case{ID: strings.Join(names, " "), Run: func() *vlib.Result { return c05Run(hh, "percmd") }})
+				// the identity-mapping layout matters only where an authorizer table is set
+				for _, e := range hh {
+					if e.kind == "table" && e.tab != "" {
+						yield(vlib.Case{ID: "mapped: " + strings.Join(names, " "), Run: func() *vlib.Result { return c05Run(hh, "mapped") }})
+						break
+					}
+				}
 				// the nil-fallback layout differs only where command C is involved
 				for _, e := range hh {
 					if e.cmd == cmdC {
